@@ -399,6 +399,8 @@ class Evaluator:
         #: names that denote arrays (subscripts become cells)
         self.arrays = arrays
         self.fresh = 0
+        #: conditions assumed because the other branch raises
+        self.assumed: list[tuple] = []
 
     # ---------------------------------------------------------- expressions
     def expr(self, env: Env, n: ast.expr) -> Any:
@@ -420,6 +422,9 @@ class Evaluator:
                     return Poly.const(c)
             return Poly.var(n.id)
         if isinstance(n, ast.Attribute):
+            dk = _dotted(n)
+            if dk is not None and dk in env.vars:
+                return env.vars[dk]
             if isinstance(n.value, ast.Name) and n.value.id in env.vars:
                 b = env.vars[n.value.id]
                 at = b.as_atom() if isinstance(b, Poly) else None
@@ -590,6 +595,22 @@ class Evaluator:
             if len(args) == 1:
                 return args[0]
             return Poly.atom(("app", name, tuple(args)))
+        if name == "len" and len(n.args) == 1 and not n.keywords:
+            a0 = n.args[0]
+            nm = None
+            if isinstance(a0, ast.Name):
+                b = env.vars.get(a0.id)
+                if b is None:
+                    nm = a0.id
+                elif isinstance(b, tuple) and b and b[0] == "array":
+                    nm = b[1]
+                elif isinstance(b, Poly) and b.as_atom() is not None and \
+                        b.as_atom()[0] == "var":
+                    nm = b.as_atom()[1]
+            elif isinstance(a0, ast.Attribute):
+                nm = ast.unparse(a0)
+            if nm is not None:
+                return Poly.atom(("app", "len", (Poly.var(nm),)))
         if name == "abs" and len(n.args) == 1:
             return Poly.atom(("app", "abs", (self.num(env, n.args[0]),)))
         if name in MATH_FUNCS and not n.keywords:
@@ -602,6 +623,9 @@ class Evaluator:
     def assign(self, env: Env, target: ast.expr, value: Any) -> None:
         if isinstance(target, ast.Name):
             env.vars[target.id] = value
+        elif isinstance(target, ast.Attribute) and _dotted(
+                target) is not None:
+            env.vars[_dotted(target)] = value
         elif isinstance(target, ast.Tuple):
             if not isinstance(value, tuple) or len(value) != len(
                     target.elts):
@@ -698,6 +722,9 @@ class Evaluator:
             # a raising path yields no value: model as 'returned' bottom
             self._ret(env, ("raise",))
             return env
+        if isinstance(s, ast.Continue):
+            self._ret(env, ("continue",))
+            return env
         raise Unsupported(f"statement {type(s).__name__}", s)
 
     def _ret(self, env: Env, v: Any) -> None:
@@ -709,6 +736,14 @@ class Evaluator:
             env.ret_cond = ("true",)
 
     def merge(self, c: tuple, e1: Env, e2: Env) -> Env:
+        # a branch that certainly raises contributes no value: the rest of
+        # the computation happens under the other branch only
+        if e1.ret_cond == ("true",) and e1.returned == ("raise",):
+            self.assumed.append(c_not(c))
+            return e2
+        if e2.ret_cond == ("true",) and e2.returned == ("raise",):
+            self.assumed.append(c)
+            return e1
         out = Env()
         for k in set(e1.vars) | set(e2.vars):
             if k in e1.vars and k in e2.vars:
@@ -748,9 +783,20 @@ class Evaluator:
         return out
 
 
+def _dotted(n: ast.AST) -> str | None:
+    parts: list[str] = []
+    while isinstance(n, ast.Attribute):
+        parts.append(n.attr)
+        n = n.value
+    if isinstance(n, ast.Name):
+        parts.append(n.id)
+        return ".".join(reversed(parts))
+    return None
+
+
 def _has_exit(s: ast.stmt) -> bool:
     for n in ast.walk(s):
-        if isinstance(n, (ast.Return, ast.Raise)):
+        if isinstance(n, (ast.Return, ast.Raise, ast.Continue)):
             return True
     return False
 
@@ -762,6 +808,10 @@ def _merge_ret(c: tuple, a: Any, b: Any) -> Any:
         return a
     if a is None and b is None:
         return None
+    if a == ("continue",) or b == ("continue",):
+        if a in (None, ("continue",)) and b in (None, ("continue",)):
+            return ("continue",)
+        raise Unsupported("return and continue on sibling paths")
     return ite(c, a, b)
 
 
